@@ -151,6 +151,7 @@ def apply(ctx, W):
             ("res is Ok ==> base_functions_ok(&semantic.type_registry, regions@, vftable_names(*vftable), res->Ok_0.0@)", ("C07", "C17"), "base-functions"),
             ("res is Ok ==> res->Ok_0.1@ =~= vftable_names(*vftable).union(names_set(res->Ok_0.0@))", ("C07",), "used-names"),
             ("res is Err ==> has_base_region(regions@)", ("C03",), "base-functions-error-only-with-bases"),
+            ("res is Ok ==> names_fresh(vftable_names(*vftable), res->Ok_0.0@)", ("C07",), "re-exposed-names-distinct"),
         ])
     # used names start with the type's own vftable function names
     un = top_let("associated_functions_used_names")
@@ -174,6 +175,7 @@ def apply(ctx, W):
     proof { assert(used0 =~= vftable_names(*vftable)); assert(names_set(associated_functions@) =~= Set::<String>::empty()); }""")
     rules.for_filter_to_index_loop(ctx, fw, u4a, l_bases, seq="regions", ivar="i_b", cvar="i_n")
     base_inv = [
+        ("names_fresh(used0, associated_functions@)", ("C07",)),
         ("injected_seq(srcs, used0, associated_functions@)", ("C07", "C17")),
         ("associated_functions_used_names@ =~= used0.union(names_set(associated_functions@))", ("C07",)),
     ]
@@ -196,7 +198,7 @@ def apply(ctx, W):
             assert(srcs == sources_of(reg, bases1, i_n as int));
         }""")
     # W8: inline `add_functions`
-    cl = rules.inline_closure(fw, b, "add_functions", "functions: &[Function]")
+    cl = rules.inline_closure(fw, b, "add_functions", "functions: &[Function]", result_type="anyhow::Result<()>")
     l_in = [l for l in fw.loops(b) if l["kind"] == "for" and cl["body_span"][0] <= l["span"][0] < cl["body_span"][1]]
     if len(l_in) != 1:
         raise rules.WeaveError("build: closure add_functions has no single loop")
@@ -205,6 +207,7 @@ def apply(ctx, W):
     rules.for_filter_to_index_loop(ctx, fw, u4a, l_in, seq="functions", ivar="i_f", cvar="i_p")
     rules.index_loop_spec(ctx, fw, u4a, l_in, tags=("C07",), invariants=[
         ("srcs == mark + tagged(publics(functions@, i_f as int), base_name)", ("C07",)),
+        ("has_base_region(regions@)", ("C03",)),
     ] + base_inv)
     bst = rules.body_stmts(fw, l_in)
     ghost(ctx, fw, u4a, bst[0]["span"][0], """let ghost out_before = associated_functions@; let ghost src = functions@[i_f - 1];
@@ -212,6 +215,7 @@ def apply(ctx, W):
     ghost(ctx, fw, u4a, bst[-1]["span"][0], "let ghost newf = function;")
     ghost(ctx, fw, u4a, body_end(l_in), """proof {
                     lemma_injected_seq_push(srcs, used0, out_before, src, base_name, newf);
+                    lemma_names_fresh_push(used0, out_before, newf);
                     lemma_names_set_push(out_before, newf);
                     assert(tagged(publics(functions@, i_f as int), base_name) =~= tagged(publics(functions@, i_f - 1), base_name).push((src, base_name)));
                     srcs = srcs.push((src, base_name));
